@@ -222,15 +222,21 @@ example :
     Lexes data [.tok (.token 0x2d82), .equal, .open_, .tok (.i32 5), .tok (.i32 6), .equal, .tok (.i32 7), .close] :=
   ⟨rfl, rfl, .cons rfl (.cons rfl (.cons rfl (.cons rfl (.cons rfl (.cons rfl (.cons rfl (.cons rfl (.done rfl))))))))⟩
 
-/-- **Fresh or previously used tape.**  `parseInto opt prev data` models
-`parse_slice_into_tape(data, &mut tape)` on a vector `prev` that was used before (`VecS`: the
-allocation with its stale contents, and the length).  The result is the one of a fresh tape, whatever
-`prev` holds; and no run reads the vector outside its length (`ub` never occurs), so the stale
-contents are never observed.  (`Proofs/BinTapeReuse.lean`: every vector primitive of the parser acts
-on the view like the list operation of the model, independently of the capacity contents.) -/
-theorem C03_reuse (opt : Bool) (prev : VecS) (data : Bytes) :
+/-- **Fresh or previously used tape — through the loop.**  `parseInto opt prev data` models
+`parse_slice_into_tape(data, &mut tape)` on a vector `prev` that was used before: `VecS` is the
+allocation with its stale contents plus the length; the vector is cleared, `Equal` is raw-written into
+slot 0, and then THE LOOP RUNS ON THE VECTOR ITSELF (`runV`/`iterV`/`keyFastV`/`dispatchV`/…,
+Model/BinTapeVec.lean — the whole parser re-stated against the vector primitives: bounds-checked
+accesses see the view, `get_unchecked(_mut)` sees whatever the allocation holds, the raw writes of the
+only_empties / mixed rewrite write into the allocation and `set_len`).  This is the function the driver
+runs for `btreuse`.  The result is the one of a fresh tape, whatever `prev` holds (`prev.Wf`: its length
+does not exceed its allocation).  Proof (Proofs/BinTapeReuse.lean): every vector primitive acts on the
+view like the list operation; function by function the vector model is simulated by the list model
+unless the latter answers `ub` (`run_simV`); and `ub` — an unchecked read outside the length, the only
+way to observe stale memory — never occurs (`C05_bintape_no_ub_panic`). -/
+theorem C03_reuse (opt : Bool) (prev : VecS) (hw : prev.Wf) (data : Bytes) :
     parseInto opt prev data = parse opt data ∧ parse opt data ≠ .error .ub :=
-  ⟨parseInto_eq opt prev data, (C05_bintape_no_ub_panic opt data).1⟩
+  ⟨parseInto_eq opt prev hw data, (C05_bintape_no_ub_panic opt data).1⟩
 
 example : parseInto true ⟨[.token 1, .array 3, .end_ 1, .token 9], 3⟩ [0x82, 0x2d, 1, 0, 0x0c, 0, 5, 0, 0, 0]
     = .ok [.token 0x2d82, .i32 5] := rfl
